@@ -162,7 +162,7 @@ def run(ctx):
             from props.common import actual_of
 
             dst = actual_of(muts[0].fn, Sym(muts[0].fn).operand(muts[0].args[0]))
-            ok = src is not None and _own(sym_str(src)) and "get_mut" in sym_str(dst) and len(_recorded_from(f, 2)) == 1
+            ok = src is not None and _own(sym_str(src)) and "get_mut" in repr(dst) and len(_recorded_from(f, 2)) == 1
         chk.ob("C17.a", f"{f.path} [later record overwrites]", ok, "every newly recorded value is insert()ed over the span's existing labels" if ok else f"a later record() does not replace the span's earlier value (map operations {sorted(names)})", f.loc())
     else:
         chk.unrecognised("C17.a", "<anchor> MetricsLayer::on_record", f"found {len(onr)}")
